@@ -10,7 +10,10 @@
 (*   [ev |-> "end", m |-> module, names |-> [name |-> kind]]               *)
 (*                                            body of m finished: its      *)
 (*                                            namespace at that moment     *)
-(*   [ev |-> "fail", kind |-> exception class]  an import statement raised *)
+(*   [ev |-> "fail", kind |-> exception class]  a statement of a body      *)
+(*                                            raised (logged where it      *)
+(*                                            arises; unwinding and        *)
+(*                                            handlers are silent steps)   *)
 (*   [ev |-> "ready", order |-> sys.modules order, mods |-> [m |-> names]] *)
 (*                                            all entries imported         *)
 (* kind of a name = the module it is bound to if that is a module of the   *)
@@ -23,14 +26,15 @@ EXTENDS Imports, IOUtils
 \* @@BODY   (the check appends the text from here on to the generated Imports module, see Imports.tla)
 Trace == JsonDeserialize(IOEnv.TRACE_FILE)
 VARIABLE i
-tvars == <<entries, ms, g, stack, order, phase, cur, fail, i>>
+tvars == <<entries, ms, g, stack, order, phase, cur, fail, caught, i>>
 
 Ev == Trace[i]
 More == i <= Len(Trace)
 Kind(v) == IF v \in Modules THEN v ELSE "-"
 SameNames(m, names) == /\ DOMAIN names = DOMAIN g[m]
                        /\ \A n \in DOMAIN names : names[n] = Kind(g[m][n])
-Accept == TLCSet(1, i) /\ i' = i + 1
+\* (branches make the machine nondeterministic: the register keeps the longest accepted prefix)
+Accept == TLCSet(1, IF i > TLCGet(1) THEN i ELSE TLCGet(1)) /\ i' = i + 1
 
 TInit == /\ Trace[1].ev = "begin" /\ InitWith(Trace[1].entries)
          /\ i = 2 /\ TLCSet(1, 1)
@@ -42,26 +46,33 @@ TEnd == /\ More /\ Ev.ev = "end"
         /\ AtEnd("mod") /\ Top.id = Ev.m /\ SameNames(Ev.m, Ev.names)
         /\ EndModule
         /\ Accept
+\* the hook sees an exception only when it leaves the body of a module: one that a handler of the same body
+\* catches is a silent step
 TFail == /\ More /\ Ev.ev = "fail"
          /\ (ImportFails \/ UseFails) /\ fail'.kind = Ev.kind
+         /\ HandlerOf(Stmt, fail'.kind) = 0
          /\ Accept
+TCaughtInBody == /\ (ImportFails \/ UseFails)
+                 /\ HandlerOf(Stmt, fail'.kind) # 0
+                 /\ i' = i
 TReady == /\ More /\ Ev.ev = "ready"
           /\ EndUser
           /\ Ev.order = order
           /\ DOMAIN Ev.mods = Loaded
           /\ \A m \in Loaded : SameNames(m, Ev.mods[m])
           /\ Accept
-TSilent == /\ (BindImport \/ BindFrom \/ StarImport \/ DefName \/ DelName \/ UseName)
+TSilent == /\ (BindImport \/ BindFrom \/ StarImport \/ DefName \/ DelName \/ UseName
+               \/ Unwind \/ Jump \/ Branch \/ CallF \/ EndCallF)
            /\ i' = i
 TRestart == /\ More /\ Ev.ev = "begin" /\ phase \in {"ready", "failed"}
             /\ entries' = Ev.entries
             /\ ms' = [m \in Modules |-> "absent"]
             /\ g' = [m \in Modules |-> <<>>]
             /\ stack' = <<[k |-> "user", id |-> "__main__", pc |-> 1]>>
-            /\ order' = <<>> /\ phase' = "import" /\ cur' = "" /\ fail' = NoFail
+            /\ order' = <<>> /\ phase' = "import" /\ cur' = "" /\ fail' = NoFail /\ caught' = FALSE
             /\ Accept
 
-TNext == TStart \/ TEnd \/ TFail \/ TReady \/ TSilent \/ TRestart
+TNext == TStart \/ TEnd \/ TFail \/ TCaughtInBody \/ TReady \/ TSilent \/ TRestart
 TSpec == TInit /\ [][TNext]_tvars
 
 Accepted == /\ PrintT(<<"ACCEPTED", TLCGet(1)>>)
